@@ -30,6 +30,7 @@ import z3
 from contracts import jumpi_unit as JU
 from pyvc import loader
 from pyvc.interp import _ENGINE, Env
+from contracts.common import replay_script  # noqa: E402
 from pyvc.pack import Case
 from pyvc.sym import SymInt, iexpr
 
@@ -131,16 +132,102 @@ def depth_cases():
         ctx.assume(max_depth.e >= 0)
         ctx.assume(step_id.e >= 1)
         n0 = len(ctx.ghost_log)
-        env = Env({"max_depth": max_depth, "step_id": step_id, "self": NS(fun_info=NS(sig="check_x()"))}, None, hs.__dict__)
+        env = Env({"max_depth": max_depth, "step_id": step_id, "self": NS(fun_info=NS(sig="check_x()", contract_name="AlphaTest", name="check_x", selector="11223344"))}, None, hs.__dict__)
         kind, payload, yields = interp.exec_fragment([hits[0]], env, qual="halmos.sevm:SEVM.run#depth")
         cut = z3.And(max_depth.e > 0, step_id.e > max_depth.e)
         ctx.oblige("state discarded iff --depth is set and exceeded", z3.BoolVal(kind == "continue") == cut, info={"kind": kind})
         ctx.oblige("otherwise execution goes on", z3.BoolVal(kind in ("continue", "fallthrough")))
         if kind == "continue":
             ctx.oblige("discarding a state is reported by a warning naming --depth", z3.BoolVal(warned_with(ctx, n0, text="--depth")))
+            # a warning sent through the duplicate filter is dropped when the same text was logged before (contract of
+            # UniqueLoggingFilter, below): it reaches the user for every test only if its text identifies the test
+            dedup = [e for e in ctx.ghost_log[n0:] if e[0] in ("warn", "warn_code", "error") and e[2].get("allow_duplicate", True) is False]
+            ok = all(("AlphaTest" in str(e[1]) and "check_x()" in str(e[1])) for e in dedup)
+            ctx.oblige("a de-duplicated incompleteness warning names the contract and the test (the same signature exists in many contracts)", z3.BoolVal(ok), info={"text": str([e[1] for e in dedup])[:200]})
         ctx.oblige("nothing is yielded by the depth check", z3.BoolVal(not yields))
 
-    return [Case(f"{PROP}/sevm.SEVM.run#depth", "all limits and step counts", harness, sources=("halmos.sevm:SEVM.run",))]
+    return [Case(f"{PROP}/sevm.SEVM.run#depth", "all limits and step counts", harness, replay=replay_depth_dedup, sources=("halmos.sevm:SEVM.run",))]
+
+
+def replay_depth_dedup(r):
+    """two contracts with a test of the same signature, both cut by --depth in one process: both must be warned about"""
+    import logging
+
+    from contracts.common import config, mk_ex
+    from halmos.calldata import FunctionInfo
+
+    got = []
+
+    class H(logging.Handler):
+        def emit(self, rec):
+            got.append(rec.getMessage())
+
+    h = H()
+    logging.getLogger("halmos").addHandler(h)
+    try:
+        code = bytes([0x5B] * 10 + [0x00])
+        seen = []
+        for cname in ("VerifAlphaTest", "VerifBetaTest"):
+            sevm = hs.SEVM(config(depth=3), FunctionInfo(cname, "check_verif_depth", "check_verif_depth()", "11223344"))
+            n0 = len(got)
+            list(sevm.run(mk_ex(sevm, code)))
+            seen.append(sum("--depth" in m for m in got[n0:]))
+    finally:
+        logging.getLogger("halmos").removeHandler(h)
+    if seen[1] == 0:
+        return {"reproduced": True, "detail": f"two contracts each with a test check_verif_depth() cut by --depth 3 in one process: warnings per test = {seen}; the second test is cut silently (the duplicate filter compares message texts and the text does not name the contract)", "inputs": "VerifAlphaTest.check_verif_depth(), VerifBetaTest.check_verif_depth(), --depth 3"}
+    return {"reproduced": False, "detail": f"both same-named tests are warned about ({seen})"}
+
+
+def logs_cases():
+    """halmos.logs: which warnings can be dropped.  warn / warn_code / error send to the plain logger unless the caller
+    asks for de-duplication; the de-duplicating logger drops a record iff the same text was logged before"""
+    import logging
+
+    import halmos.logs as hl
+
+    out = []
+
+    def harness(interp):
+        ctx = interp.ctx
+        for name in ("warn", "warn_code", "error"):
+            fn = getattr(hl, name)
+            sf, node = loader.func_node(fn)
+            a = node.args
+            names = [x.arg for x in a.args]
+            dflt = dict(zip(names[len(names) - len(a.defaults):], a.defaults))
+            d = dflt.get("allow_duplicate")
+            val = interp.eval(d, Env({}, None, hl.__dict__)) if d is not None else None
+            ctx.oblige(f"{name}: duplicates are allowed unless the caller asks otherwise (default allow_duplicate=True)", z3.BoolVal(val is True))
+        r_true = interp.call(hl.logger_for, [True], {})
+        r_false = interp.call(hl.logger_for, [False], {})
+        ctx.oblige("logger_for(True) is the plain `halmos` logger, which has no filter; logger_for(False) is the de-duplicating one", z3.BoolVal(r_true is hl.logger and r_true.filters == [] and r_false is hl.logger_unique and len(r_false.filters) == 1 and type(r_false.filters[0]) is hl.UniqueLoggingFilter))
+        f = hl.UniqueLoggingFilter()
+        rec = lambda m: NS(msg=m)  # noqa: E731
+        flt = hl.UniqueLoggingFilter.__dict__["filter"]
+        r1 = interp.call(flt, [f, rec("A.check_x(): cut")], {})
+        r2 = interp.call(flt, [f, rec("B.check_x(): cut")], {})
+        r3 = interp.call(flt, [f, rec("A.check_x(): cut")], {})
+        ctx.oblige("the duplicate filter drops a record iff a record with the same text was seen before (different texts always pass)", z3.BoolVal(r1 is True and r2 is True and r3 is False))
+
+    out.append(Case(f"{PROP}/logs#dedup-scope", "defaults, logger selection, filter", harness, replay=replay_script("loop_bound_dedup.py", "two contracts whose setUp() and tests are cut by --loop 2, run in one process"), sources=("halmos.logs:warn", "halmos.logs:warn_code", "halmos.logs:error", "halmos.logs:logger_for", "halmos.logs:UniqueLoggingFilter.filter")))
+
+    def harness_sites(interp):
+        """every LOOP_BOUND / INTERNAL_ERROR report of __main__ goes through warn_code without asking for de-duplication"""
+        ctx = interp.ctx
+        bad = []
+        n = 0
+        for mod in ("halmos.__main__", "halmos.sevm"):
+            sf = loader.module_file(mod)
+            for node in ast.walk(sf.tree):
+                if isinstance(node, ast.Call) and getattr(node.func, "id", None) == "warn_code":
+                    n += 1
+                    if any(k.arg == "allow_duplicate" for k in node.keywords) or len(node.args) > 2:
+                        bad.append(ast.unparse(node)[:80])
+        ctx.oblige("coded warnings (loop bound, internal error, ...) are never sent through the duplicate filter", z3.BoolVal(not bad and n >= 3), info={"sites": n, "bad": str(bad)[:200]})
+
+    out.append(Case(f"{PROP}/logs#dedup-scope", "warn_code call sites", harness_sites, sources=("halmos.__main__:run_test", "halmos.__main__:setup")))
+    return out
 
 
 def except_arm_cases():
@@ -431,7 +518,7 @@ def frontier_stuck_cases():
 
 
 def build_cases(tier="quick"):
-    return jumpi_cases() + depth_cases() + except_arm_cases() + loop_bound_cases() + owner_cases() + engine_logs_frame_cases() + width_and_stuck_cases() + frontier_stuck_cases()
+    return logs_cases() + jumpi_cases() + depth_cases() + except_arm_cases() + loop_bound_cases() + owner_cases() + engine_logs_frame_cases() + width_and_stuck_cases() + frontier_stuck_cases()
 
 
 ASSUMPTIONS = [
